@@ -210,23 +210,34 @@ Proof.
     ttl_generic, ttl_ptr, pos; simpl; rewrite ?E, ?E'; simpl; split; reflexivity.
 Qed.
 
+(** a ttl of zero -- or a negative one -- in force disables lookup and store *)
+Theorem nonpositive_disables : forall f m conf rule c,
+  m <> MJwtFin ->
+  spec_cfg m conf rule = Some c -> c <= 0 ->
+  guard_F3 f m conf rule = false ->
+  let st := withconfig_ttl f m (create_ttl m conf) rule in
+  lookup_enabled m st = false /\ forall exp now, store f m st exp now = None.
+Proof.
+  intros f m conf rule c Hm Hc Hle Hg st.
+  assert (Hst : exists c', st = Some c' /\ c' <= 0).
+  { subst st. unfold spec_cfg in Hc. destruct m; try congruence; simpl in Hc;
+      try (destruct rule as [r|]; [inversion Hc; subst; simpl; exists c; split; [reflexivity | lia]
+                                  | subst conf; simpl; exists c; split; [reflexivity | lia]]).
+    destruct rule as [r|]; [inversion Hc; subst | subst conf; simpl; exists c; split; [reflexivity | lia]].
+      unfold guard_F3 in Hg. simpl in *. destruct (fx3 f); simpl in *; [exists c; split; [reflexivity | lia]|].
+      assert (E : (c >? 0) = false) by lia. rewrite E.
+      eexists; split; [reflexivity|]. unfold val in Hg. assert (E' : (c <=? 0) = true) by lia. rewrite E' in Hg. simpl in Hg.
+      destruct conf; simpl in *; lia. }
+  destruct Hst as (c' & -> & Hle'). apply disabled_state; assumption.
+Qed.
+
 Theorem zero_disables : forall f m conf rule,
   m <> MJwtFin ->
   spec_cfg m conf rule = Some 0 ->
   guard_F3 f m conf rule = false ->
   let st := withconfig_ttl f m (create_ttl m conf) rule in
   lookup_enabled m st = false /\ forall exp now, store f m st exp now = None.
-Proof.
-  intros f m conf rule Hm Hc Hg st.
-  assert (Hst : exists c, st = Some c /\ c <= 0).
-  { subst st. unfold spec_cfg in Hc. destruct m; try congruence; simpl in Hc;
-      try (destruct rule as [r|]; [inversion Hc; subst; simpl; exists 0; split; [reflexivity | lia]
-                                  | subst conf; simpl; exists 0; split; [reflexivity | lia]]).
-    destruct rule as [r|]; [inversion Hc; subst | subst conf; simpl; exists 0; split; [reflexivity | lia]].
-      unfold guard_F3 in Hg. simpl in *. destruct (fx3 f); simpl in *; [exists 0; split; [reflexivity | lia]|].
-      eexists; split; [reflexivity|]. unfold val in Hg. lia. }
-  destruct Hst as (c & -> & Hle). apply disabled_state; assumption.
-Qed.
+Proof. intros f m conf rule Hm Hc Hg. apply (nonpositive_disables f m conf rule 0); auto. lia. Qed.
 
 (** ** C10_config_only_shortens *)
 
@@ -541,7 +552,7 @@ Proof.
   unfold wf_hist. repeat (apply Forall_cons; [unfold max_delay, secs, ns_per_s; lia|]). apply Forall_nil.
 Qed.
 
-(** ** the repaired code (fix: commits 637ae67, c971513, e0dc5e2): no guards *)
+(** ** the repaired code (fix: commits 637ae67, c971513, e0dc5e2; a3cbbb3 and 8647e06 further below and in Mixed.v): no guards *)
 
 Lemma guard_F1_fixed f m st exp now : fx1 f = true -> guard_F1 f m st exp now = false.
 Proof. intro H. unfold guard_F1. rewrite H. reflexivity. Qed.
@@ -619,7 +630,7 @@ Proof.
   intros. apply guard_F2_fixed. exact Hf.
 Qed.
 
-(** the former witnesses of C10-F1/F3 on the repaired code *)
+(** the former witnesses of C10-F1/F2/F3 on the repaired code *)
 Example fixed_witnesses :
   store fx_all MIntro s300 (Some 1005) (secs 1000) = None /\
   store fx_all MJwtKey None (Some 1005) (secs 1000) = None /\
@@ -766,12 +777,12 @@ Definition h_badexp : hvals :=
   {| hv_maxage := None; hv_expires := Some None; hv_date := None; hv_age := 0 |}.
 
 Theorem F4_refuted :
-  (guard_F4 fx_repo h_aged 0 (secs 1000) = true /\
+  (guard_F4 fx_before_F4 h_aged 0 (secs 1000) = true /\
    rfc_remaining h_aged 0 (secs 1000) = Some (secs 1) /\
-   http_store_hdr fx_repo true h_aged 0 (secs 1000) (secs 1000) = Some (secs 3600)) /\
-  (guard_F4 fx_repo h_badexp (secs 5) (secs 1000) = true /\
+   http_store_hdr fx_before_F4 true h_aged 0 (secs 1000) (secs 1000) = Some (secs 3600)) /\
+  (guard_F4 fx_before_F4 h_badexp (secs 5) (secs 1000) = true /\
    rfc_remaining h_badexp (secs 5) (secs 1000) = Some 0 /\
-   http_store_hdr fx_repo true h_badexp (secs 5) (secs 1000) (secs 1000) = Some (secs 5)).
+   http_store_hdr fx_before_F4 true h_badexp (secs 5) (secs 1000) (secs 1000) = Some (secs 5)).
 Proof. vm_compute. splits; reflexivity. Qed.
 
 Example F4_fixed_witness :
@@ -839,4 +850,27 @@ Proof.
   destruct (http_store_hdr f cachable h dflt now1 now2) as [ttl|] eqn:Es; [|reflexivity].
   destruct (http_hdr_within_rfc_at_set _ _ _ _ _ _ _ H2 H4 Hn Hage Es) as (l' & Hl' & Hp & Hb).
   rewrite Hl in Hl'. inversion Hl'; subst. lia.
+Qed.
+
+Theorem nonpositive_disables_fixed : forall f m conf rule c,
+  fx3 f = true ->
+  m <> MJwtFin ->
+  spec_cfg m conf rule = Some c -> c <= 0 ->
+  let st := withconfig_ttl f m (create_ttl m conf) rule in
+  lookup_enabled m st = false /\ forall exp now, store f m st exp now = None.
+Proof. intros f m conf rule c Hf Hm Hc Hle. apply (nonpositive_disables f m conf rule c); auto. apply guard_F3_fixed. exact Hf. Qed.
+
+(** non-vacuity under the repaired code: a mechanism history and a round-tripper
+    history that contain a hit, an aged response that is still stored *)
+Example nonvacuous_fixed :
+  (exists t v, In (Hit t v) (run Redis (lookup_enabled MIntro s300) (mech_policy fx_all MIntro s300) (secs 1000) []
+      [Req 1 {| r_id := 7; r_exp := Some 1100 |} 0; Adv (secs 50); Req 1 {| r_id := 8; r_exp := Some 1300 |} 0])) /\
+  (exists t v, In (Hit t v) (run Mem true (http_policy fx_all 0) (secs 1000) []
+      [Req 1 {| r_id := 7; r_exp := Some (secs 1010) |} 0; Adv (secs 5); Req 1 {| r_id := 8; r_exp := Some (secs 1020) |} 0])) /\
+  http_store_hdr fx_all true h_aged 0 (secs 1000) (secs 1000) = Some (secs 1).
+Proof.
+  split; [|split].
+  - eexists _, _. vm_compute. right. left. reflexivity.
+  - eexists _, _. vm_compute. right. left. reflexivity.
+  - vm_compute. reflexivity.
 Qed.
